@@ -148,7 +148,7 @@ Eigen::VectorXd GPFCorrection::sampleFromProposal(const Eigen::VectorXd& mean, c
     LDLT<MatrixXd> chol_ldlt(covariance);
     MatrixXd sqrt_P = (chol_ldlt.transpositionsP() * MatrixXd::Identity(mean.size(), mean.size())).transpose() *
                        chol_ldlt.matrixL() *
-                       chol_ldlt.vectorD().real().cwiseSqrt().asDiagonal();
+                       chol_ldlt.vectorD().real().cwiseMax(0.0).cwiseSqrt().asDiagonal();
 
     /* Sample i.i.d standard normal univariates. */
     VectorXd rand_vectors(mean.size());
